@@ -293,8 +293,15 @@ func (pool *BlockPool) SetPeerRange(peerID p2p.ID, base int64, height int64) {
 
 	peer := pool.peers[peerID]
 	if peer != nil {
+		oldHeight := peer.height
 		peer.base = base
 		peer.height = height
+		// If this peer was the one maxPeerHeight came from and it now reports
+		// less, maxPeerHeight must follow: a height that no peer claims any
+		// more would keep IsCaughtUp false (and requests pending) forever.
+		if height < oldHeight && oldHeight == pool.maxPeerHeight {
+			pool.updateMaxPeerHeight()
+		}
 	} else {
 		peer = newBPPeer(pool, peerID, base, height)
 		peer.setLogger(pool.Logger.With("peer", peerID))
